@@ -10,7 +10,7 @@ model = extracted Model/C20Attr.v, Model/C20Ehabi.v;  spec = extracted Spec/C20A
 import io, itertools, struct
 from tools.lib.framework import impl_call
 
-CLAIMED = False
+CLAIMED = True
 CONFIG = {'assumptions': ['attribute strings are compared as UTF-8 bytes; generated strings are valid UTF-8',
                           'the ELF container around the section is assembled by the harness (ELF32/ELF64, both byte orders)',
                           'mnemonic notation is that of llvm-readobj ARMEHABIPrinter, the reference named in ehabi/decoder.py',
